@@ -30,6 +30,20 @@ func TestSweep(t *testing.T) {
 			}
 		}
 	}
+	// degenerate pools under concurrency: no channels (with any Length/Capacity in the allocator), and
+	// no capacity with buffers that grow by less than a frame and are offered back
+	for ti, tn := range Types {
+		for _, sh := range [][3]int{{0, 0, 0}, {0, 0, 8}, {0, 4, 8}, {2, 0, 0}, {3, 0, 0}} {
+			for _, g := range []int{2, 8} {
+				c := &Case{T: tn, C: sh[0], L: sh[1], K: sh[2], G: g, M: 9, Procs: []int{2, 16}[ti%2], Repeat: rep, Grow: 1 + ti%2, Hold: 1 + ti%2}
+				for i := 0; i < g; i++ {
+					c.Yields = append(c.Yields, (i*3+ti)%8)
+					c.ByValue = append(c.ByValue, i%3 == 0)
+				}
+				Oracle.One(t, env, rec, "sweep", c)
+			}
+		}
+	}
 	// contention on the pool itself: tiny buffers, several held per goroutine, thousands of cycles
 	for i, g := range []int{3, 8, 32} {
 		for hold := 1; hold <= 3; hold++ {
